@@ -5,6 +5,7 @@ import (
 	"fmt"
 	"os"
 	"sort"
+	"strconv"
 	"time"
 
 	mhub2types "github.com/MinterTeam/mhub2/module/x/mhub2/types"
@@ -101,6 +102,25 @@ func (*Tracker) Property() string { return "" }
 func (t *Tracker) step(w *World, at string) {
 	t.Prev = t.Cur
 	t.Cur = w.TakeSnap(at)
+	if w.createdAt == nil {
+		w.createdAt = map[string]uint64{}
+	}
+	for _, ch := range Chains {
+		note := func(e *mhub2types.SendToExternal) {
+			k := ch + "/" + strconv.FormatUint(e.Id, 10)
+			if _, ok := w.createdAt[k]; !ok {
+				w.createdAt[k] = e.CreatedAt
+			}
+		}
+		for _, e := range t.Cur.Pool[ch] {
+			note(e)
+		}
+		for _, b := range t.Cur.Batches[ch] {
+			for _, e := range b.Transactions {
+				note(e)
+			}
+		}
+	}
 	if t.Prev == nil {
 		t.Prev = t.Cur
 	}
